@@ -90,6 +90,7 @@ func c04(p *P) {
 	r.Rule("C04.R7", "canonical order: power desc, id asc", 3)
 	p.include(c08, map[string]string{"C08.R1": "C04.R8", "C08.R2": "C04.R8b", "C08.R4": "C04.R8c"}, map[string]string{"C04.R8": "strong-quorum threshold exact", "C04.R8b": "quorum operands from one table", "C04.R8c": "signer weights: exact scaling of the power table in arbitrary precision"})
 
+	p.gEquality("C04.R1")
 	// ---------------- R1 / R3
 	if v := p.fn("C04.R1", "certs.ValidateFinalityCertificates"); v != nil {
 		var nextPhi, basePhi, prevPhi, chainPhi *ssa.Phi
